@@ -75,7 +75,7 @@ def data_case(draw, signer_kinds=None, max_total=70000):
         st.fixed_dictionaries({'content_type': opt(_U64), 'freshness_period': opt(_U64),
                                'final_block_id': opt(S.component(12).map(lambda c: S.comp_bytes(c).hex()))})))
     return {'kind': 'data', 'name': _steer_name(draw, draw(S.name(0, 6, allow_digest_types=True)), max_total),
-            'name_rep': draw(st.integers(0, 6)),
+            'name_rep': draw(st.integers(0, 9)),
             'meta': meta, 'payload': draw(payload_spec(max_total)),
             'signer': draw(K.signer_spec(signer_kinds)), 'reuse': draw(st.booleans())}
 
@@ -101,7 +101,7 @@ def interest_case(draw, signer_kinds=None, max_total=70000):
         'hop_limit': draw(opt(st.integers(0, 255))),
         'forwarding_hint': draw(st.lists(S.name(0, 3, max_len=10, allow_digest_types=False), max_size=3)),
     }
-    return {'kind': 'interest', 'name': name, 'name_rep': draw(st.integers(0, 6)), 'digest_pos': digest_pos,
+    return {'kind': 'interest', 'name': name, 'name_rep': draw(st.integers(0, 9)), 'digest_pos': digest_pos,
             'params': params, 'payload': payload, 'signer': signer, 'reuse': draw(st.booleans()),
             'sig_time': draw(st.integers(0, 2 ** 48)), 'sig_nonce': draw(st.integers(1, 2 ** 64 - 1))}
 
@@ -115,7 +115,13 @@ def name_in_rep(name_json, rep):
     from .checks.c09_names import ref_comp_canonical, ref_name_canonical
     comps = [(c[0], bytes.fromhex(c[1])) for c in name_json]
     enc = [T.enc_tlv(t, v) for t, v in comps]
-    rep = rep % 7
+    rep = rep % 10
+    if rep == 7:
+        return tuple(enc)
+    if rep == 8:
+        return (e for e in enc)          # one-shot: a generator
+    if rep == 9:
+        return iter(list(enc))           # one-shot: an iterator
     if rep == 0:
         return list(enc)
     if rep == 1:
